@@ -46,12 +46,14 @@ def cases(seed, tier):
     out = []
     for i in range(n):
         r = rng.random()
+        # session ids: of their own kind, equal to their own station's id, or spelled like ANOTHER station's id
+        ss = rng.choice(["x", "x", "station", "other_station", "other_station"])
         if r < 0.6:
-            d = gen.scenario(rng, sched="scripted", noise_p=0.0)
+            d = gen.scenario(rng, sched="scripted", noise_p=0.0, sid_style=ss)
         elif r < 0.8:
-            d = gen.scenario(rng, sched="uncontrolled", noise_p=0.0)
+            d = gen.scenario(rng, sched="uncontrolled", noise_p=0.0, sid_style=ss)
         else:
-            d = gen.scenario(rng, sched="sorted", kinds=("EVSE", "FR"), noise_p=0.0, est=None)
+            d = gen.scenario(rng, sched="sorted", kinds=("EVSE", "FR"), noise_p=0.0, est=None, sid_style=ss)
         out.append({"desc": d, "copy_pair": rng.choice(["dict", "tuple"]) if rng.random() < 0.15 else None,
                     "fault_at": rng.choice([0, 1, 2, 3, 5]) if rng.random() < 0.25 else None})
         if rng.random() < 0.15 and not out[-1]["copy_pair"]:
